@@ -232,7 +232,7 @@ def gen_ops(rng, b, cfg, n):
 
     def sel():
         if getattr(b, "full_sel_only", False):
-            return full
+            return rng.choice([full, full, full, 0])      # no byte enables behind the bridge: whole word or nothing at all
         return rng.choice([full, full, full, rng.getrandbits(nb), 1 << rng.randrange(nb), 0, full & ~(1 << rng.randrange(nb))])
     i = 0
     while i < n:
